@@ -33,7 +33,9 @@ XAccept            == (\E tp \in ValidT, c \in BOOLEAN : AddAccept(tp, c)) /\ Ke
 XRejectInvalid     == (\E tp \in InvalidT : AddRejectInvalid(tp, FALSE)) /\ Keep
 XRejectConflict    == (\E tp \in ValidT : AddRejectConflict(tp, FALSE)) /\ Keep
 XRejectPathNotLast == (\E tp \in ValidT : AddRejectPathNotLast(tp, FALSE)) /\ Keep
-XFind              == Find(<< <<>> >>) /\ Keep       \* the path "/": which path is looked up is irrelevant for the view
+(* a lookup changes the state only by generating the program (Find = Compile + the answer in `last`, which
+   the view drops); stated without Lookup, which TLC's -coverage cost model cannot digest (out of memory) *)
+XFind              == Compile /\ UNCHANGED <<accepted, tree, nadds, last>> /\ Keep
 XNext == XAccept \/ XRejectInvalid \/ XRejectConflict \/ XRejectPathNotLast \/ XFind
 (* these two depend on `accepted` only (given FindIsIdealDFS); every value of `accepted` is reached by a
    history without rejected adds and without compile flags, so they are evaluated there *)
@@ -44,7 +46,7 @@ XNoLeak          == Canonical => NoLeak
 (* ---- decision table (leg A): every canonical state with the outcome of every possible next add
    and its complete lookup table (the paths that are not listed miss) ---- *)
 Hits  == LET ft == FinderTree IN
-         {Rec("find", <<>>, 0, FALSE, p, "hit", Lookup(ft, p)) : p \in {q \in Paths : Lookup(ft, q).found}}
+         {x \in {Rec("find", <<>>, 0, FALSE, p, "hit", Lookup(ft, p)) : p \in Paths} : x.found}
 Outs  == {[t |-> tp, out |-> Outcome(tree, tp)] : tp \in Templates}
 EmitTable == Canonical => PrintT(ToJson([acc |-> accepted, outs |-> Outs, hits |-> Hits]))
 
